@@ -318,6 +318,35 @@ func (bp *bprover) summaryIndexOfArg(fn *ssa.Function) bool {
 		if arg, ok := isLenOf(r); ok && stripConv(arg) == ssa.Value(par) {
 			continue
 		}
+		// range loop: the index is i = φ(-1, i)+1, returned under the guard i < len(par)
+		if bo, ok := stripConv(r).(*ssa.BinOp); ok && bo.Op == token.ADD {
+			if rph, ok := stripConv(bo.X).(*ssa.Phi); ok {
+				one, isOne := constInt(bo.Y)
+				start, back := false, false
+				for _, e := range rph.Edges {
+					if c, ok := constInt(e); ok && c == -1 {
+						start = true
+					} else if stripConv(e) == ssa.Value(bo) {
+						back = true
+					} else {
+						start, back = false, false
+						break
+					}
+				}
+				guarded := domEdge(fn, b, func(cond ssa.Value) (bool, bool) {
+					cb, ok := cond.(*ssa.BinOp)
+					if !ok || cb.Op != token.LSS || stripConv(cb.X) != ssa.Value(bo) {
+						return false, false
+					}
+					arg, ok := isLenOf(cb.Y)
+					return ok && stripConv(arg) == ssa.Value(par), true
+				})
+				if isOne && one == 1 && start && back && guarded {
+					continue
+				}
+			}
+			return false
+		}
 		// loop index: φ(0, φ+1) returned under the guard φ < len(par)
 		ph, ok := stripConv(r).(*ssa.Phi)
 		if !ok {
